@@ -354,6 +354,9 @@ def main():
         explanation=EXPLANATION)
 
 EXPLANATION = (
+    'TIE BY TRANSLATION (Props/C16Tie.lean): Checker._check_message_flags is regenerated from the current source on every run (msgchk2lean.py) and proved equal, for all '
+    'entries, to Msg.checkMessageFlags (generated_check_message_flags_eq_model, live_env_is_source, message_flags_eq_generated, check_message_flags_total_generated); the '
+    'regenerated method also runs against the real code in the check-message-flags-generated stream. check_messages itself is not translated (correspondence only). '
     'Proved in Lean for ALL entry lists, contexts and sane environments (Props/C16.lean): message_tags_eq / check_messages_eq (the imperative model of check_messages with its '
     'accumulators msgid_counter and found_unusual_characters, of _check_message_flags and of the XML gate = the rule set Spec.MessageRules, per entry and file-level, with extras and order), '
     'message_flags_eq, trace_at, and one theorem per tag read off the rule set: duplicate_message_definition_iff, duplicate_message_definition_file_iff, empty_file_iff / empty_file_po_iff, translation_in_template_iff, '
